@@ -141,6 +141,9 @@ type vhandler struct {
 	dupMu           sync.Mutex
 	userDups        []int // descriptors obtained through Conn.Dup: ours to close
 	slowTick        int32 // 1 while a slow OnTick is running
+	parkConn        int32 // conn id whose first OnTraffic keeps its loop busy until parkRelease is closed (0: none)
+	parkReached     chan struct{}
+	parkRelease     chan struct{}
 }
 
 // awaitSlowTick waits (briefly) until a slow OnTick is in progress, so that the shutdown request that follows
@@ -565,6 +568,13 @@ func (h *vhandler) OnTraffic(c Conn) Action {
 	}
 	h.rec.emit("Traffic", "c", sp.id, "g", g, "ib", c.InboundBuffered(), "ob", c.OutboundBuffered(), "raddr", ra, "laddr", la)
 	atomic.StoreInt64(&sp.delivered, int64(vc.consumed+c.InboundBuffered()))
+	if pc := atomic.LoadInt32(&h.parkConn); pc != 0 && pc == int32(sp.id) && atomic.CompareAndSwapInt32(&h.parkConn, pc, 0) {
+		close(h.parkReached)
+		select {
+		case <-h.parkRelease:
+		case <-time.After(10 * time.Second):
+		}
+	}
 	if sp.flood && vc.callbacks == 1 {
 		select { // hold the loop so that the requests pile up in its queues
 		case <-vc.floodGate:
